@@ -50,6 +50,8 @@ type c16Dep struct {
 	cookie string
 	maxAge time.Duration
 	url    string
+	iss    string // issuer and audience of the session codec (both the deployment URL unless configured apart)
+	aud    string
 	minted map[string]c16Mint
 }
 
@@ -67,6 +69,15 @@ func c16NewDep(name, key, rootURL, cookie string, maxAge time.Duration) *c16Dep 
 	d := &c16Dep{name: name, m: m, key: kp, cookie: cookie, maxAge: time.Hour, url: rootURL, minted: map[string]c16Mint{}}
 	if d.cookie == "" {
 		d.cookie = "token"
+	}
+	d.iss, d.aud = rootURL, rootURL
+	if name == "rsa-split-names" { // a hand-built codec whose issuer and audience are two different names
+		sp := m.Session.(samlsp.CookieSessionProvider)
+		codec := sp.Codec.(samlsp.JWTSessionCodec)
+		codec.Issuer, codec.Audience = "https://issuer.sp.example.com", "https://audience.sp.example.com"
+		sp.Codec = codec
+		m.Session = sp
+		d.iss, d.aud = codec.Issuer, codec.Audience
 	}
 	if maxAge != 0 {
 		sp := m.Session.(samlsp.CookieSessionProvider)
@@ -210,6 +221,7 @@ func runC16(c *core.Ctx) {
 		c16NewDep("rsa-default", "sp_rsa2048", "https://sp.example.com", "", 0),
 		c16NewDep("ec-default", "sp_p256", "https://sp.example.com", "", 0),
 		c16NewDep("rsa-custom", "sp_rsa1024", "https://sp.example.com", "sid", 7*time.Minute),
+		c16NewDep("rsa-split-names", "sp_rsa2048", "https://sp.example.com", "", 0),
 	}
 	others := map[string]*c16Dep{
 		"same-key-other-url": c16NewDep("same-key-other-url", "sp_rsa2048", "https://other.example.com", "", 0),
@@ -456,8 +468,13 @@ func c16Mutants(c *core.Ctx, d *c16Dep, tok string, mintAt time.Time, a *saml.As
 		{"aud-other", func(cl map[string]any) { cl["aud"] = "https://other.example.com" }, false},
 		{"aud-absent", func(cl map[string]any) { delete(cl, "aud") }, false},
 		{"aud-empty", func(cl map[string]any) { cl["aud"] = "" }, false},
-		{"aud-array", func(cl map[string]any) { cl["aud"] = []string{d.url} }, false},
-		{"aud-prefix", func(cl map[string]any) { cl["aud"] = d.url[:len(d.url)-1] }, false},
+		{"aud-array", func(cl map[string]any) { cl["aud"] = []string{d.aud} }, false},
+		{"aud-prefix", func(cl map[string]any) { cl["aud"] = d.aud[:len(d.aud)-1] }, false},
+		// issuer and audience are separate claims: each is compared with its own configured name (indistinguishable, hence
+		// still valid, when the deployment uses one name for both)
+		{"iss-is-audience-name", func(cl map[string]any) { cl["iss"] = d.aud }, d.iss == d.aud},
+		{"aud-is-issuer-name", func(cl map[string]any) { cl["aud"] = d.iss }, d.iss == d.aud},
+		{"iss-aud-swapped", func(cl map[string]any) { cl["iss"], cl["aud"] = d.aud, d.iss }, d.iss == d.aud},
 		{"iss-other", func(cl map[string]any) { cl["iss"] = "https://other.example.com" }, false},
 		{"iss-absent", func(cl map[string]any) { delete(cl, "iss") }, false},
 		{"marker-false", func(cl map[string]any) { cl["saml-session"] = false }, false},
